@@ -333,7 +333,10 @@ def parseOpt (item : String) : Except Err (String × String × String) :=
     if countC '.' p.1 ≠ 1 then .error Err.badField
     else
       let q := split1 '.' p.1
-      .ok (strip q.1, strip q.2, strip p.2)
+      -- an empty section or field name is refused like a missing `.` (on the pinned tree `.x=1` was accepted and
+      -- landed in DEFAULT: finding `malformed-option-accepted`, repaired)
+      if strip q.1 = "" || strip q.2 = "" then .error Err.badField
+      else .ok (strip q.1, strip q.2, strip p.2)
 
 /-- `if section != DEFAULTSECT and not has_section(section): add_section(section)` -/
 def Rc.ensureSection (rc : Rc) (sec : String) : Except Err Rc :=
